@@ -11,6 +11,7 @@ fn main() {
     "c01" => vh::engines::c01::run(),
     "c02gen" => vh::engines::c02::generate(),
     "c02report" => vh::engines::c02::report(),
+    "c03" => vh::engines::c03::run(),
     "c05" => vh::engines::c05::run(),
     "c05worker" => vh::engines::c05::worker(&args[2..]),
     "c06" => vh::engines::c06::run(),
@@ -22,6 +23,14 @@ fn main() {
     "c14" => vh::engines::c14::run(),
     "c15" => vh::engines::c15::run(),
     "c16" => vh::engines::c16::run(),
+    "dmn" => {
+      // debug helper: vh dmn <file.dmn> <invocable> "<feel context>"
+      let xml = std::fs::read_to_string(&args[2]).unwrap();
+      let defs = dmntk_model::parse(&xml).unwrap_or_else(|e| panic!("parse: {}", e));
+      let me = dmntk_model_evaluator::ModelEvaluator::new(&defs).unwrap_or_else(|e| panic!("build: {}", e));
+      let ctx = dmntk_feel_evaluator::evaluate_context(&dmntk_feel::Scope::default(), &args[4]).unwrap();
+      println!("{}", me.evaluate_invocable(&args[3], &ctx));
+    }
     "parse" => {
       // debug helper: vh parse "<names,comma separated>" "<text>"
       let names: std::collections::BTreeSet<String> = args[2].split(',').filter(|s| !s.is_empty()).map(|s| s.to_string()).collect();
